@@ -130,14 +130,17 @@ class Program:
                     self.closures.setdefault(m.group(0), []).append(f)
         self.enums = enums or {}
 
-    def find(self, pattern, nargs=None):
-        """functions whose printed name matches regex `pattern` (search)"""
+    def find(self, pattern, nargs=None, sig=None):
+        """functions whose printed name matches regex `pattern` (search) and whose signature text matches `sig`"""
         r = re.compile(pattern)
         out = [f for f in self.funcs if r.search(f.name) and f.kind == 'fn' and (nargs is None or len(f.args) == nargs)]
+        if sig is not None:
+            rs = re.compile(sig)
+            out = [f for f in out if rs.search(', '.join(a[1] for a in f.args) + ' -> ' + f.ret_ty)]
         return out
 
-    def one(self, pattern, nargs=None):
-        c = self.find(pattern, nargs)
+    def one(self, pattern, nargs=None, sig=None):
+        c = self.find(pattern, nargs, sig)
         if len(c) != 1:
             raise Refuse('function pattern %r matches %d functions: %s' % (pattern, len(c), [f.name for f in c][:6]))
         return c[0]
